@@ -109,7 +109,7 @@ mod verif_c07 {
         assert!(b == a.translate(d));
         kani::cover!(!sp::is_empty(&a.fill_area()));
     }
-    //@harness prop=C07 kind=lemma tier=thorough class=P timeout=3000 fns=src/primitives/rectangle/styled.rs::Rectangle::draw_styled
+    //@harness prop=C07 kind=lemma tier=quick class=P timeout=1500 fns=src/primitives/rectangle/styled.rs::Rectangle::draw_styled
     #[kani::proof]
     fn c07_rectangle_draw_commutes() {
         let d = any_point(D);
